@@ -76,6 +76,14 @@ CLAIMED = {
              "history suites on the real client under the virtual clock (exact for dyadic values) and by every 16-bit boundary pair + random pairs checked directly against a/1000, b*10/1000.",
         design_ref='DESIGN.md §3 C10',
         technique='Lean 4 proof (case analysis + history step invariant) + differential history suite under virtual clock'),
+    'C11': dict(
+        text="Lean theorems for every record list and every pad length n: with tolerance on, the availability-mask DTC parsers return the encoded records, plus one DTC 0 per whole all-zero "
+             "record of the padding when ignore_all_zero_dtc is off (n / record size of them), dropping a partial record; with tolerance off, n not a multiple of the record size is an invalid "
+             "response while whole zero records are still parsed; read_memory_by_address trims / refuses; IO control with a fixed-length codec trims / refuses. The other padding-aware parsers "
+             "(snapshot, extended data, fault counter, WWH-OBD, ReadDataByIdentifier, RequestFileTransfer) are modelled and tied by the correspondence suite (partial). Domain extracted from the "
+             "docstrings on every run (31 methods). Known finding: sub-function 0x16 rejects two whole zero records. Tied by every valid reply x pad 0..2*record+1 x 4 settings.",
+        design_ref='DESIGN.md §3 C11',
+        technique='Lean 4 proof (strong induction on the pad length, prefix lemma by list induction) + docstring-extracted domain + differential correspondence'),
     'C13': dict(
         text="Lean theorems: parity normalisation for all levels 1..0x7E (kernel-decided), exact seed/key request frames, complete behaviour of the composite (seed exchange "
              "first; without a good seed nothing more is sent and the algorithm is not called; otherwise exactly one call with that seed and the level as passed, result sent "
@@ -93,6 +101,23 @@ CLAIMED = {
              "and wrapper: real client vs udsdrv, and the Spec decoder applied to the frame the real client sent.",
         design_ref='DESIGN.md §3 C01',
         technique='Lean 4 proof (decode∘encode per service, list induction, table tie by decide +kernel) + differential correspondence + Spec decoder on the implementation\'s frames'),
+    'C02': dict(
+        text="Lean theorems interpret(Spec.encode v) = v over line-faithful models of the response interpreters: ReadDTCInformation availability-mask groups with arbitrary record lists "
+             "(4- and 6-byte records, with and without MemorySelection; list order and count by induction), number-of-DTC replies, RequestDownload/Upload maxNumberOfBlockLength unsigned on 1..8 "
+             "bytes (all values below 256^w, incl. bit 63). The other interpreters (simple services, ReadDataByIdentifier, IO control, RequestFileTransfer, Authentication, the snapshot / "
+             "extended-data / WWH-OBD / fault-counter groups) are modelled line by line and tied by the correspondence suite; their round-trip theorems are not proved yet (partial). "
+             "Tied by semantic reply values (field minima/maxima, 0..N records, DID sizes 1..8, per-DTC size dict) encoded by an independent reference encoder, fed to the real client and to the model.",
+        design_ref='DESIGN.md §3 C02',
+        technique='Lean 4 proof (list induction over record lists, toBE/fromBE lemmas) + differential correspondence with a reference encoder'),
+    'C04': dict(
+        text="Lean theorems: for every response interpreter and every client-side check (all simple services, ReadDataByIdentifier loop, WriteDataByIdentifier, DynamicallyDefineDataIdentifier, "
+             "ReadMemoryByAddress, RequestDownload/Upload, IO control, RequestFileTransfer, Authentication, and all ten ReadDTCInformation response groups incl. the snapshot DID loops, plus "
+             "read_dtc_information's echo-first error ordering) and for ALL byte strings, the model returns or fails with a documented outcome - IndexError / struct.error / ... are unreachable "
+             "(Safe combinators; strong induction on the remaining bytes for each loop; the snapshot cursor provably advances). Termination of every parser loop is Lean's own termination check. "
+             "Hypotheses: the client configuration is valid (DID size 1..8, extended-data size given) and the sub-function was accepted by make_request. Parsing of the frame itself: C17 parse_total. "
+             "Tied by ~10 k (thorough 170 k) truncated / mutated / extended replies per run on the real client with a step budget, all switches on and off, and codecs whose decode raises.",
+        design_ref='DESIGN.md §3 C04',
+        technique='Lean 4 proof (unreachability of undocumented errors for all inputs; termination by well-founded recursion) + differential fuzz correspondence'),
     'C07': dict(
         text="Lean theorems: for every request builder, make_request succeeds IFF the arguments are in the documented domain (accept-iff theorems: identifier ranges, configured codecs and their "
              "lengths, read-all codec only last, IO masks defined and fitting, sub-function defined and allowed by the edition, every ISO request parameter present and in range, dtc_class rule, "
